@@ -29,6 +29,9 @@ COMMENT_TEXTS = [
     'r"a" ra"b" r', 'r', 'rr"x"', "r'q'w", '%%', '%a% %b%', 'a%b%c', 'del_ del x [ y ]',
     'for_ x', 'f(a, b = c)', '(p, q) => p + q + r', 'p => q => p', 'x += y -= z',
     '{k: v, "s": w}', 'a[b:c]', 'a[b::c]', 'é1 = _ü + ²', 'None_ None', 'a\r\nb;c\n\nd',
+    'map(l, "shout")', 'filter(l, "keep")', 'sorted(l, "bykey")', 'reduce(l, "fold")', 'l | map("b")', 'l.sorted("k", "r")', 'get(d, "dflt")',
+    'map(l, v => "inner")', 'x = "len"; x(l)', 'd["k"]', 'd.k2' , 'l | "str"', 'join(l, "sep")', 'replace("a", "b", "c")', 'ﬁeld + µ + ｆull',
+    'ﬁ(1)', 'x.ﬂ()', 'ｘ = 1; ｘ', 'Ⅷ = 2', 'ⅈ => ⅈ',
     '"a\\"b" c', "'a\\'b' c", '"a\\\\" c', 'a "b', "a 'b", 'a $ b', 'a \\ b', '%a\nb%', 'a % b',
 ]
 
@@ -85,6 +88,8 @@ def valuations(names):
         m = Recording()
         if kind != 'unbound':
             for n in names:
+                if n in api.FUNCTIONS and kind != 'falsy':
+                    continue        # builtins stay builtins (only the `falsy` valuation lets the host override them)
                 dict.__setitem__(m, n, fn if n in ('f', 'g', 'h') else mk(n))
         yield kind, m
 
